@@ -19,7 +19,7 @@ COMPONENTS = {"real": ["ECAgent.Tags.TagLibrary (add_tag, get_tag_name, itemize,
               "stub": ["none"]}
 PROBES = ["hostile_method_name", "hostile_private_attr", "hostile_dunder", "hostile_module_global", "hostile_arbitrary",
           "two_libraries_interleaved", "failed_add_consumes_no_id", "duplicate_rejected", "none_rejected",
-          "id_out_of_range_rejected", "global_library_used", "hostile_accepted", "hostile_rejected"]
+          "id_out_of_range_rejected", "global_library_used", "hostile_accepted", "hostile_rejected", "private_name_looked_up_on_global_library"]
 TECHNIQUE = "deterministic simulation: seeded add/lookup histories with hostile names over several libraries, pristine forked process per history, list reference with bijection invariants"
 LEVEL_TEXT = ("Seeded search over tag-name histories on local libraries and the global one; after every operation, for every "
               "library: length, itemised list, id->name for every id inside and outside the range, name->id for every accepted "
@@ -77,7 +77,8 @@ def generate(rng, tier):
                 name = rng.choice(PLAIN)
             ops.append({"lib": lib, "op": "add", "name": name})
         elif r < 0.65:
-            ops.append({"lib": lib, "op": "by_name", "name": rng.choice(PLAIN + ["NONE", "ghost", "UNKNOWN"])})
+            ops.append({"lib": lib, "op": "by_name", "name": rng.choice(PLAIN + ["NONE", "ghost", "UNKNOWN"] +
+                                                                       (PRIVATE if lib == "g" else []))})
         elif r < 0.8:
             ops.append({"lib": lib, "op": "by_id", "id": rng.choice([-2, -1, 0, 1, 2, 3, 5, 8, 10 ** 6, rng.randint(0, 12)])})
         elif r < 0.9:
@@ -212,7 +213,11 @@ def execute(sc, ctx):
             if name in names:
                 st, v = ctx.call(L.by_name, name)
                 ctx.check(st == "ok" and v == names.index(name), "name-to-id", f"library {key}: {name!r} -> {v!r}")
+            elif name in PRIVATE and key != "g":
+                pass      # a private attribute of a library OBJECT is ordinary Python, not a tag lookup
             else:
+                if name in PRIVATE:
+                    ctx.probe("private_name_looked_up_on_global_library")
                 ctx.expect_raises("unknown-name", L.unknown_name_exc, L.by_name, name)
             shape.append([str(key), "name", name in names])
         elif kind == "by_id":
